@@ -544,12 +544,16 @@ func (ex *Exec) decideAll(obls []*Obligation, cfg SolveCfg) {
 // checkSat: is the path condition (plus goal un-negated) satisfiable? used for vacuity covers.
 func (ex *Exec) coverSat(ob *Obligation, cfg SolveCfg) string {
 	script := ex.script(ob, false)
-	for _, w := range []string{"z3new", "z3"} {
-		n, a := solverCmd(w, cfg.T1, cfg.Seed)
-		r := runSolver(n, a, script, cfg.T1, false)
-		if r.status == "sat" || r.status == "unsat" {
-			return r.status
-		}
+	n, a := solverCmd("z3new", cfg.T1, cfg.Seed)
+	r := runSolver(n, a, script, cfg.T1, false)
+	if r.status == "sat" || r.status == "unsat" {
+		return r.status
+	}
+	// quantifier-free weakening: unsat there means unsat here; sat there is taken as reachable
+	weak := ex.scriptOpts(ob, false, "", true)
+	r = runSolver(n, a, weak, cfg.T1, false)
+	if r.status == "unsat" {
+		return "unsat"
 	}
 	return "unknown"
 }
